@@ -20,6 +20,7 @@
 struct in_s {
     uint8_t head[HEAD];
     size_t  claimed;
+    size_t  base;          /* -DWINDOW: the HEAD bytes sit at offset `base` of the claimed buffer (token at any offset) */
     char    seq[4];
 };
 struct in_s IN;
@@ -35,27 +36,37 @@ void harness(void)
 {
     LOAD_INPUTS();
     size_t claimed = IN.claimed;
-    ASSUME(claimed >= HEAD && claimed <= ((size_t) 1 << 33));
+#ifdef WINDOW
+    size_t base = IN.base;
+    ASSUME(base <= ((size_t) 1 << 32));
+#else
+    size_t base = 0;
+#endif
+    ASSUME(claimed >= base + HEAD && claimed <= ((size_t) 1 << 33));
 #ifdef NATIVE_REPLAY
     uint8_t *buf = mmap(NULL, claimed, PROT_READ | PROT_WRITE, MAP_PRIVATE | MAP_ANONYMOUS | MAP_NORESERVE, -1, 0);
     if (buf == MAP_FAILED) { printf("REPLAY: cannot map %zu bytes\n", claimed); _exit(5); }
+    uint8_t *win = buf + base;
 #else
-    EXACT_BYTES(buf, HEAD);
+    EXACT_BYTES(win, HEAD);
+    /* the parser's buffer pointer is the window minus `base`: only the HEAD bytes at [base, base+HEAD) exist,
+       every access the parser makes must fall into them (CBMC checks each dereference against the window object) */
+    uint8_t *buf = win - base;
 #endif
-    for (size_t i = 0; i < HEAD; i++) buf[i] = IN.head[i];
+    for (size_t i = 0; i < HEAD; i++) win[i] = IN.head[i];
     size_t pos;
 #if ROOT == 1
-    buf[0] = 0x40; buf[1] = 0x14; buf[2] = 0x01;     /* {"x": <token> ...   (name byte buf[3] symbolic) */
-    pos = 4;
+    win[0] = 0x40; win[1] = 0x14; win[2] = 0x01;     /* {"x": <token> ...   (name byte symbolic) */
+    pos = base + 4;
 #else
-    buf[0] = 0x42;                                    /* [ <token> ... */
-    pos = 1;
+    win[0] = 0x42;                                    /* [ <token> ... */
+    pos = base + 1;
 #endif
     binson_state st[1];
     memset(st, 0, sizeof st);
     binson_parser p;
     p.type = ROOT; p.depth = 1; p.max_depth = 1;
-    p.buffer = buf; p.buffer_size = claimed; p.buffer_used = 1;
+    p.buffer = buf; p.buffer_size = claimed; p.buffer_used = base + 1;
     p.error_flags = BINSON_ERROR_NONE;
     p.state = st; p.current_state = &st[0];
     p.cb = NULL; p.cb_context = NULL;
@@ -101,7 +112,7 @@ void harness(void)
             }
 #if ROOT == 1
             bbuf *nm = binson_parser_get_name(&p);
-            CHECK(nm != NULL && PTR_EQ(nm->bptr, buf + 3) && nm->bsize == 1, "C03 name span exact");
+            CHECK(nm != NULL && PTR_EQ(nm->bptr, win + 3) && nm->bsize == 1, "C03 name span exact");
 #endif
         }
     }
